@@ -85,6 +85,12 @@ pub fn yield_mismatch(text: &str, root: &astwalk::Node) -> Option<String> {
 }
 
 pub fn run(modules: &[(String, String)], do_compile: bool, do_format: bool) -> PipelineReport {
+  run_own(modules, modules.len(), do_compile, do_format)
+}
+
+/// like `run`, but the yield oracle and the formatter are applied only to the first `n_own`
+/// modules (the rest are unmodified library modules that ride along)
+pub fn run_own(modules: &[(String, String)], n_own: usize, do_compile: bool, do_format: bool) -> PipelineReport {
   let mut rep = PipelineReport::default();
   let mut heap = Heap::new();
   let handles: HashMap<_, _> = modules.iter().map(|(n, t)| (crate::front::mod_ref(&mut heap, n), t.clone())).collect();
@@ -104,8 +110,9 @@ pub fn run(modules: &[(String, String)], do_compile: bool, do_format: bool) -> P
   }
   let syntax_by_module: BTreeSet<_> = errors.errors().iter().filter(|e| e.is_syntax_error()).map(|e| e.location.module_reference).collect();
   // silent recovery oracle + formatting on modules without syntax errors
+  let own: BTreeSet<_> = modules.iter().take(n_own).map(|(n, _)| crate::front::mod_ref(&mut heap, n)).collect();
   for (m, ast) in &parsed {
-    if syntax_by_module.contains(m) {
+    if syntax_by_module.contains(m) || !own.contains(m) {
       continue;
     }
     let text = &handles[m];
